@@ -28,6 +28,7 @@ func keepFields(r M, s fieldSet) M {
 // Projection describes what a property looks at.
 type Projection struct {
 	SkipPreamble bool // the property does not judge startup/auth/parameters (preamble rule)
+	Global       bool // keep the "global parameter map after the run" event
 	Recv    map[string]fieldSet // per backend message type; "*" = default
 	Cb      map[string]fieldSet // per callback name; "*" = default
 	CtxKeys fieldSet            // which keys of a callback's ctx record are kept (nil = all)
@@ -84,14 +85,14 @@ var Projections = map[string]*Projection{
 		Cb: map[string]fieldSet{"*": fs("q", "def", "si", "params")}},
 	"C01": {Recv: map[string]fieldSet{"*": kinds, "R": fs("code"), "E": fs("cls")},
 		Cb: map[string]fieldSet{"*": fs("q", "def", "ret", "db", "user", "pw", "i")}},
-	"C12": {Recv: map[string]fieldSet{"*": kinds, "R": fs("code"), "S": fs("key", "val"), "Z": fs("st")},
-		Cb: map[string]fieldSet{"*": fs("q", "def", "ret", "ctx", "cp", "sp", "i", "db", "user")}},
+	"C12": {Global: true, Recv: map[string]fieldSet{"*": kinds, "R": fs("code"), "S": fs("key", "val"), "Z": fs("st")},
+		Cb: map[string]fieldSet{"*": fs("q", "def", "ret", "cp", "sp", "i", "db", "user")}},
 	"C13": {SkipPreamble: true, Recv: map[string]fieldSet{"*": kinds, "G": fs("fmt", "n", "fmts")},
 		Cb: map[string]fieldSet{"*": fs("q", "def", "si", "ret", "dig")}},
 	"C17": {SkipPreamble: true, Recv: map[string]fieldSet{"*": kinds, "E": fs("wf", "dup", "sev", "code", "msg", "hint", "detail", "cons", "file", "line", "fn")},
 		Cb: map[string]fieldSet{"*": fs("q", "def")}},
 	"C19": {Recv: map[string]fieldSet{"*": kinds},
-		Cb: map[string]fieldSet{"*": fs("q", "def", "si", "ctx", "i", "chain", "cp", "sp", "prev")}},
+		Cb: map[string]fieldSet{"*": fs("q", "def", "si", "i", "mw", "cp", "sp", "addr", "tm", "live", "prevdone")}},
 	"C02": {Recv: map[string]fieldSet{"*": fs("wf", "dup", "n")},
 		Cb: map[string]fieldSet{"*": fs("q", "def")}},
 	"C10": {SkipPreamble: true, Recv: map[string]fieldSet{"*": kinds, "E": fs("code", "fatal")},
